@@ -323,6 +323,10 @@ func confirmCrash(prop, tier string, seed uint64, p *part, idx int, first *worke
 		}
 		rf.Engine, rf.Store, rf.UsePolicy = "store", &c, false
 		v.OpKind, v.Type = c.Mode, c.Reader
+		v.Msg += " | input: " + c.Fault
+		if strings.Contains(msg, "stack overflow") {
+			v.Kind = "stack-overflow"
+		}
 	} else if sc == nil {
 		return nil, fmt.Errorf("could not dump the scenario of the crashing index %d", idx)
 	}
